@@ -23,6 +23,21 @@ theorem class_test_is_equality (a b : Cls) : isSubclass a b = true ↔ a = b := 
     sequence on every quantum register -/
 theorem direct_sound (c1 c2 : Circuit) (h : directL c1 c2 = true) : wiresEq c1 c2 = true := directL_sound c1 c2 h
 
+/-- what "the same wire sequences" means for whole circuits: for lists of operations that each act on at least one
+    quantum register, agreeing on every register is the same as being related by exchanges of neighbouring operations on
+    disjoint registers (the trace-theory projection lemma) -/
+theorem wire_sequences_determine_the_circuit (l1 l2 : List Op) (hne : ∀ o ∈ l1, o.qRegs ≠ [])
+    (hw : ∀ q, l1.filter (onReg q) = l2.filter (onReg q)) (hlen : l1.length = l2.length) : SwapEquiv l1 l2 :=
+  swapEquiv_of_wires l1 l2 hne hw hlen
+
+/-- **`direct` reports equal ⇒ equivalent circuits**: the executed operation lists differ only by exchanges of
+    neighbouring operations acting on disjoint registers (which commute), and by which classical register records an
+    outcome (which the compiled quantum state does not depend on) -/
+theorem direct_sound_up_to_commuting_exchanges (c1 c2 : Circuit) (h1 : ∀ op ∈ c1.ops, InRange c1 op)
+    (h2 : ∀ op ∈ c2.ops, InRange c2 op) (h : directL c1 c2 = true) :
+    SwapEquiv ((flat c1.ops).map dropC) ((flat c2.ops).map dropC) :=
+  directL_swapEquiv c1 c2 h1 h2 h
+
 /-- reflexive (so a circuit and its copy compare equal) -/
 theorem direct_reflexive (c : Circuit) : directL c c = true := directL_refl c
 
@@ -152,6 +167,7 @@ def demo' : Circuit :=
   ⟨1, 1, 1, [.one .H ⟨.e, 0⟩, .ctrl .CNOT ⟨.e, 0⟩ ⟨.p, 0⟩, .one .S ⟨.p, 0⟩, .one .H ⟨.p, 0⟩, .cctrl .MCR ⟨.e, 0⟩ ⟨.p, 0⟩ 0]⟩
 
 example : directL demo demo' = true := by decide +kernel
+example : (∀ op ∈ demo.ops, InRange demo op) ∧ (∀ op ∈ demo'.ops, InRange demo' op) := by decide +kernel
 example : wiresEq demo demo' = true := by decide +kernel
 example : direct demo demo' = .ok true := by decide +kernel
 example : removeRedundantWith directL [demo, demo', witA, witB] = [demo, witA, witB] := by decide +kernel
